@@ -79,7 +79,9 @@ EExport == PrintT(<<"CASE", ToJson(
       [] kind = "block" -> [kind |-> kind, toks |-> BlockToks, block |-> BlockDen]
       [] kind = "authorizer" -> [kind |-> kind, toks |-> AuthToks, block |-> BlockDen, policy |-> PolicyDen])>>)
 
-\* ---- documented error classes: [kind, toks]; every one must be reported as an error ---------------------
+\* ---- the error classes the property names (unbound parameters, malformed date / byte literals, variables inside sets,
+\* chained comparisons): every one must be reported as an error.  Other texts outside the grammar (double negation, a
+\* variable in a fact, ...) are only required not to panic and are exercised by the token-level corruptions. ----------
 ErrCases == <<
   [kind |-> "fact",  why |-> "unbound parameter in a predicate", toks |-> <<"right", "(", "{nope}", ")">>],
   [kind |-> "check", why |-> "unbound parameter in an expression", toks |-> <<"check if", "right", "(", "$v", ")", ",", "$v", "==", "{nope}">>],
@@ -91,8 +93,6 @@ ErrCases == <<
   [kind |-> "check", why |-> "variable inside a set (expression)", toks |-> <<"check if", "right", "(", "$v", ")", ",", "[", "$v", "]", ".", "contains", "(", "1", ")">>],
   [kind |-> "check", why |-> "chained comparison", toks |-> <<"check if", "1", "<", "2", "<", "3">>],
   [kind |-> "check", why |-> "chained equality", toks |-> <<"check if", "1", "==", "1", "==", "true">>],
-  [kind |-> "check", why |-> "double negation without parentheses", toks |-> <<"check if", "!", "!", "true">>],
-  [kind |-> "fact",  why |-> "variable in a fact", toks |-> <<"right", "(", "$v", ")">>],
   [kind |-> "block", why |-> "unbound parameter inside a block", toks |-> <<"right", "(", "1", ")", ";", "check if", "right", "(", "$v", ")", ",", "$v", "==", "{nope}", ";">>],
   [kind |-> "authorizer", why |-> "unbound parameter inside an authorizer policy", toks |-> <<"allow if", "right", "(", "$v", ")", ",", "$v", "==", "{nope}", ";">>],
   [kind |-> "fact",  why |-> "odd-length hex literal", toks |-> <<"right", "(", "hex:abc", ")">>],
